@@ -211,6 +211,7 @@ func init() {
 			{Scenario: "srv.join", Params: vx.P("conns", "0.1,0.2", "cap", "0", "db", "bolt"), Bound: b(1, 2), Weight: 5},
 			{Scenario: "srv.join", Params: vx.P("conns", "0.1,0.1", "cap", "2", "delay", "0"), Bound: b(1, 2), Weight: 8},
 		}
+		jobs = append(jobs, vx.Job{Scenario: "panel.history", Params: vx.P("depth", fmt.Sprint(b(6, 9))), Weight: 6})
 		for i := range jobs {
 			jobs[i].BudgetS = b(100, 900)
 		}
